@@ -889,8 +889,9 @@ func c12Random(r *Run) func(c *Case, rng *Rng) {
 
 func runC12(r *Run) {
 	r.Rule = "a case = 1-3 generated bash hooks loaded by the real hook manager + 1-6 executions spread over 1-3 queue workers running " +
-		"concurrently; each execution has a scripted exit code (25% non-zero, some killed by a signal; 30% write to stderr) and scripted contents of the metrics / admission / conversion / patch " +
-		"files (empty, valid, truncated, wrong type, deleted; metrics also valid-but-rejected batch; patch also failing application and invalid document); " +
+		"concurrently; each execution has a scripted exit code (25% non-zero, some killed by a signal; 30% write to stderr) and scripted TEXT of the metrics / admission / conversion / patch " +
+		"files (empty, valid in many spellings — white space, every number form, escapes, ignored fields —, cut inside a record, wrong type, stray closing brackets at a record boundary, leading / trailing garbage, bad tokens, blank, second document, deleted; metrics also valid-but-rejected batch; patch also failing application and invalid document, JSON or YAML); the text goes to the Lean driver, which decides from it whether the file is well-formed; " +
+		"a third of the cases run with an operator process whose own environment already holds (all / some of) the six path variables; at the end 8 (thorough: 17) values of --debug-keep-tmp-files, each through the real flag definition (command line or DEBUG_KEEP_TMP_FILES) before the hooks are loaded; " +
 		"every execution goes through the real taskHandler -> handleRunHook -> Hook.Run with a real process, real MetricStorage and kube-client/fake; " +
 		"the hook records pwd, the six path variables, initial file sizes and the context file. 35% of the cases add a hook whose name (189-193 characters) makes the creation of the 4th / 3rd / 1st temp file fail (NAME_MAX) and run it once more at the end: not started, failed, nothing left behind. Non-trivial = at least 2 executions or a non-empty output/non-zero exit."
 	app.DebugKeepTmpFilesVar = "no"
@@ -1145,7 +1146,55 @@ func runC12(r *Run) {
 			env.report(c, []*c12Exec{x})
 			c.Nontrivial = true
 		})
+		// third wave: every malformed-text shape in every file, one at a time (the other files well-formed
+		// or empty), exit 0 and 1, 12 random variants of each
+		type one struct {
+			kind, shape string
+			exit        int
+		}
+		var ones []one
+		for _, kind := range []string{"metrics", "admission", "conversion", "patch"} {
+			shapes := append([]string{"truncated", "wrongtype"}, c12MalformedShapes...)
+			if kind == "admission" || kind == "conversion" {
+				shapes = append(shapes, "twodocs")
+			}
+			for _, sh := range shapes {
+				for _, ex := range []int{0, 0, 0, 1} {
+					for v := 0; v < 4; v++ {
+						ones = append(ones, one{kind, sh, ex})
+					}
+				}
+			}
+		}
+		r.Cases(2000000, len(ones), 0, func(c *Case, rng *Rng) {
+			rng = c13Reseed(rng)
+			k := ones[c.Idx-2000000]
+			env, err := c12Setup(r, c, c12HookFiles[:1])
+			if err != nil {
+				c.Op("setup", "harness-error "+err.Error())
+				return
+			}
+			defer env.close()
+			good := PickOne(rng, []string{"valid", "valid", "empty"})
+			x := &c12Exec{eid: 1, hook: 0, q: 1, exit: k.exit, metrics: good, adm: good, conv: good, patch: good, nctx: 1}
+			switch k.kind {
+			case "metrics":
+				x.metrics = k.shape
+			case "admission":
+				x.adm = k.shape
+			case "conversion":
+				x.conv = k.shape
+			case "patch":
+				x.patch = k.shape
+			}
+			_ = env.writeScripts(x, rng)
+			env.runAll([]*c12Exec{x})
+			env.report(c, []*c12Exec{x})
+			c12Notes(c, []*c12Exec{x})
+			c.Nontrivial = true
+		})
 		r.Exhaust = true
+		r.Extra["malformed_shapes_scope"] = fmt.Sprintf("%d cases: every shape of malformed text (truncated, wrong type, stray closer, garbage, bad token, blank, second document) in each of the four files alone", len(ones))
 		r.Extra["exhaustive_scope"] = fmt.Sprintf("all %d combinations of exit in {0,1} x 6 metrics classes x 5 admission x 5 conversion x 7 patch classes, one execution each", len(combos))
 	}
 
